@@ -894,7 +894,7 @@ func parseMovementValue(p *Parser, allowMultiple bool, closingToken token.Type) 
 	for p.curToken.Type != closingToken {
 		if p.curToken.Type == token.PORYSWITCH {
 			poryswitchCommands, err := p.parsePoryswitchListStatement(func(p *Parser, allowMultiple bool) ([]token.Token, error) {
-				return parseMovementValue(p, allowMultiple, closingToken)
+				return parseMovementValue(p, allowMultiple, token.RBRACE)
 			})
 			if err != nil {
 				return nil, err
